@@ -687,6 +687,21 @@ func poison(b *geom.Bounds) {
 	})
 }
 
+// afterProbe calls it k more times, recovering each call on its own: "p p" for a panic, else the point's bit patterns
+func afterProbe(it func() geom.Point, k int) string {
+	var sb strings.Builder
+	fmt.Fprintf(&sb, " after %d", k)
+	for c := 0; c < k; c++ {
+		var q geom.Point
+		if pan := vproto.Safe(func() { q = it() }); pan != "" {
+			sb.WriteString(" p p")
+		} else {
+			sb.WriteString(" " + vproto.F2H(q.X) + " " + vproto.F2H(q.Y))
+		}
+	}
+	return sb.String()
+}
+
 func safeBounds(g geom.Geom) string {
 	var b *geom.Bounds
 	if pan := vproto.Safe(func() { b = g.Bounds() }); pan != "" {
@@ -711,13 +726,19 @@ func runGeom(g geom.Geom) string {
 		// Len() panicked (a nil member): what does the iterator hand out before it reaches the nil member?  Drained
 		// until it panics (compared with the model: C04_nil_points_prefix / C04_nil_points_fault)
 		var pre []geom.Point
+		var itN func() geom.Point
 		vproto.Safe(func() {
-			it := g.Points()
+			itN = g.Points()
 			for i := 0; i < 1<<16; i++ {
-				pre = append(pre, it())
+				pre = append(pre, itN())
 			}
 		})
 		res.WriteString(" drained " + ptsStr(pre))
+		// the five calls after that first panic: the closure keeps the captured variables where the panic left them
+		// (unspecified by the property; compared with the model's nextS, After.lean)
+		if itN != nil && len(pre) < 1<<16 {
+			res.WriteString(afterProbe(itN, 5))
+		}
 	} else {
 		pan := vproto.Safe(func() {
 			it := g.Points()
@@ -765,6 +786,17 @@ func runGeom(g geom.Geom) string {
 				}
 			} else {
 				res.WriteString(" beyond ok " + vproto.F2H(extra.X) + " " + vproto.F2H(extra.Y))
+			}
+			// five calls after Len() calls on a fourth fresh iterator, each recovered separately: what an iterator does
+			// AFTER it has panicked (compared with the model's nextS; C04_points_after_fault: it panics again)
+			var it4 func() geom.Point
+			if pan := vproto.Safe(func() {
+				it4 = g.Points()
+				for i := 0; i < n; i++ {
+					it4()
+				}
+			}); pan == "" {
+				res.WriteString(afterProbe(it4, 5))
 			}
 		}
 	}
